@@ -13,7 +13,7 @@ META = {
         "fresh vector that is pushed as PushProgram::Block(_) right after the call; (R05.3) `return` on Close is control-dependent on the nested flag (top level falls through), the entry "
         "point passes true with the genome's own iterator and returns the filled vector, recursive calls pass false; (R05.4) the NumOpens table: DupBlock/When/Unless -> 1, IfElse -> 2, every "
         "other impl -> 0 (incl. the trait default), ExecInstruction forwards each variant to its own payload, PushInstruction forwards Exec and returns 0 otherwise; (R05.5) panic audit: the "
-        "translation has no may-panic site. NOT decided: native stack exhaustion from very deep nesting (recursion depth is a runtime quantity)."),
+        "translation has no may-panic site. NOT decided: native stack exhaustion from very deep nesting (recursion depth is a runtime quantity). (R05.6) Plushy::new collects the supplied genes in order, get_genes returns a copy of them, PushGene::from / PushProgram::from wrap the instruction they are given."),
     "rules": {
         "R05.1": "each gene is appended exactly once, in order, before recursion; Close appends nothing",
         "R05.2": "exactly num_opens() recursive parses per instruction, each result appended as Block immediately",
